@@ -215,9 +215,11 @@ fn take_obs(slot: &Slot) -> bool {
         let v = slot.obs.swap(0, std::sync::atomic::Ordering::Acquire);
         if v != 0 {
             let bits = v - 1;
-            // the layer must let events and spans through exactly when the thread's view says so
-            if bits != 0 && bits != 7 {
-                LAYER_MISMATCH.store(bits, std::sync::atomic::Ordering::Relaxed);
+            // verdict: an EVENT must not get past the layer while the thread's own view is off. (That
+            // events are delivered while it is on, and what happens to spans, is a design choice of the
+            // layer - level hints, spans kept for context - that the property does not fix.)
+            if bits & 1 == 0 && bits & 2 != 0 {
+                LAYER_MISMATCH.store(bits | 8, std::sync::atomic::Ordering::Relaxed);
             }
             return bits & 1 == 1;
         }
@@ -339,7 +341,7 @@ pub fn replay_c20(case: &Value) -> Vec<Divergence> {
     if OBSERVE_LAYER.swap(false, std::sync::atomic::Ordering::Relaxed) {
         out = out.into_iter().map(|d| Divergence::new(format!("through-the-layer:{}", d.class), d.detail)).collect();
         if mm != 0 {
-            out.push(Divergence::new("layer-delivery-differs-from-the-threads-view", format!("is_enabled() = {}, event delivered = {}, span delivered = {}", mm & 1 == 1, mm & 2 == 2, mm & 4 == 4)));
+            out.push(Divergence::new("layer-delivers-an-event-although-the-threads-view-is-off", format!("is_enabled() = {}, event delivered = {}, span delivered = {}", mm & 1 == 1, mm & 2 == 2, mm & 4 == 4)));
         }
     }
     out
@@ -546,7 +548,7 @@ pub fn run_c20(args: &Args) -> i32 {
     }
     // the consumer of the view: `GlobalEnable` stacked under a counting layer in each worker thread;
     // after every step each thread emits one event and one span (interest cache rebuilt first, see
-    // DESIGN 5b) and both must be delivered exactly when the reference says the thread's view is on
+    // DESIGN 5b); an event must not be delivered while the thread's view is off
     let mut layer_runs = 0u64;
     {
         OBSERVE_LAYER.store(true, std::sync::atomic::Ordering::Relaxed);
@@ -567,7 +569,7 @@ pub fn run_c20(args: &Args) -> i32 {
                     }
                     if mm != 0 {
                         ds.push(Divergence::new(
-                            "layer-delivery-differs-from-the-threads-view",
+                            "layer-delivers-an-event-although-the-threads-view-is-off",
                             format!("[{}]: is_enabled() = {}, event delivered = {}, span delivered = {}", full.iter().map(|(t, o)| format!("T{t}.{o:?}")).collect::<Vec<_>>().join(" "), mm & 1 == 1, mm & 2 == 2, mm & 4 == 4),
                         ));
                     }
@@ -610,7 +612,7 @@ pub fn run_c20(args: &Args) -> i32 {
             "traces_validated_against_impl": executions + schedules,
             "evaluations": executions + schedules,
             "distinct_nontrivial": cross_thread,
-            "rule": "non-trivial = engine-A histories in which BOTH threads perform operations (the isolation claim is about cross-thread effects). engine A: BFS over the reference states (global flag, two overrides, <=1 saved token per thread); from each state's shortest history every (thread, op) of the 9 operations (the 8 public ones, local_take both with its token kept and with it discarded) followed by every suffix of length <= 1 (thorough 2), every state is additionally entered through one (thorough: two) alternative history, because the implementation may hold state the reference does not model; each history executed on two fresh OS threads driven in lock-step, both threads' is_enabled() compared with the reference after every step; the shortest histories followed by every (thread, op) are repeated with each worker thread created only when its first operation is due (threads born in every reference state); every maximal sequence of length 5 (thorough 6) over {local_enable, local_disable, take into one of two token slots, restore from either} that uses both slots, with the global setting on and off (two saved overrides alive at once, restored in either order); the shortest histories followed by every (thread, op) are also observed through the consumer of the view, `GlobalEnable` stacked under a counting layer as each worker's default subscriber: one event and one span per step (per-callsite interest cache rebuilt first) must be delivered exactly when the thread's view is on. engine B: loom on the unmodified tracing-enabled source (std shim exporting loom Cell / atomic / thread_local): every pair of programs of <= 2 operations (thorough: also 3-operation programs against <= 1-operation programs) on two loom threads, every interleaving loom's DPOR enumerates within the preemption bound, oracle = some sequential order respecting program order explains all observations and the final state.",
+            "rule": "non-trivial = engine-A histories in which BOTH threads perform operations (the isolation claim is about cross-thread effects). engine A: BFS over the reference states (global flag, two overrides, <=1 saved token per thread); from each state's shortest history every (thread, op) of the 9 operations (the 8 public ones, local_take both with its token kept and with it discarded) followed by every suffix of length <= 1 (thorough 2), every state is additionally entered through one (thorough: two) alternative history, because the implementation may hold state the reference does not model; each history executed on two fresh OS threads driven in lock-step, both threads' is_enabled() compared with the reference after every step; the shortest histories followed by every (thread, op) are repeated with each worker thread created only when its first operation is due (threads born in every reference state); every maximal sequence of length 5 (thorough 6) over {local_enable, local_disable, take into one of two token slots, restore from either} that uses both slots, with the global setting on and off (two saved overrides alive at once, restored in either order); the shortest histories followed by every (thread, op) are also observed through the consumer of the view, `GlobalEnable` stacked under a counting layer as each worker's default subscriber: one event per step (per-callsite interest cache rebuilt first) must not be delivered while the thread's view is off. engine B: loom on the unmodified tracing-enabled source (std shim exporting loom Cell / atomic / thread_local): every pair of programs of <= 2 operations (thorough: also 3-operation programs against <= 1-operation programs) on two loom threads, every interleaving loom's DPOR enumerates within the preemption bound, oracle = some sequential order respecting program order explains all observations and the final state.",
             "engine_a": {"reference_states": shortest.len(), "executions": executions, "steps": steps, "suffix_length": suffix_len},
             "engine_b": lv,
             "exhaustive": true,
